@@ -225,7 +225,7 @@ def enc_fval(h, v, vals):
     if type(v) is str:
         return [Sym('str'), v, vals.vid(v)]
     if isinstance(v, dict):
-        return [Sym('dict'), [[k, enc_fval(h, x, vals)] for k, x in v.items()]]
+        return [Sym('dict'), [[k, enc_fval(h, x, vals)] for k, x in v.items()], vals.vid(v)]
     return [Sym('other'), vals.vid(v)]
 
 
